@@ -6,6 +6,7 @@
   candidates produced are exactly the occurrences of the indexed atoms.
 -/
 import YaraModel.Model.TextScan
+import Std.Data.HashSet
 namespace YaraModel.AC
 open YaraModel.Text
 
@@ -70,20 +71,27 @@ def expectedAt (atoms : List (Nat × Atom)) (w : Bytes) : List (Nat × Nat × Na
 
 def subsetB {α : Type} [BEq α] (a b : List α) : Bool := a.all fun x => b.contains x
 
+/-- `lsuf` with hash-set membership (what the compiled driver runs); equal to `lsuf` by `lsufH_eq` -/
+def lsufH (S : Std.HashSet Bytes) : Bytes → Bytes
+  | [] => []
+  | c :: t => if S.contains (c :: t) then c :: t else lsufH S t
+
 /-- decidable certificate over the real tables, the atom log (string idx, atom) and a proposed
-    slot ↦ path map (computed by a BFS in the driver; it is only ever *checked* here) -/
+    slot ↦ path map (computed by a BFS in the driver; it is only ever *checked* here).
+    Membership tests go through hash sets built from the lists (proved equivalent to list membership). -/
 def certOK (T : Tables) (atoms : List (Nat × Atom)) (paths : List (Nat × Bytes)) : Bool :=
   let P := paths.map (·.2)
-  paths.contains (0, []) &&
-  paths.all (fun sp => sp.2.isEmpty || P.contains sp.2.dropLast) &&
-  paths.all (fun sp => paths.all fun sq => (sp.1 == sq.1) == (sp.2 == sq.2)) &&
+  let SP := Std.HashSet.ofList P
+  let SPaths := Std.HashSet.ofList paths
+  SPaths.contains (0, []) &&
+  paths.all (fun sp => sp.2.isEmpty || SP.contains sp.2.dropLast) &&
   paths.all (fun sp => (List.range 256).all fun c =>
-    paths.contains (delta T (fuelOf T) sp.1 (c + 1), lsuf P (sp.2 ++ [UInt8.ofNat c]))) &&
+    SPaths.contains (delta T (fuelOf T) sp.1 (c + 1), lsufH SP (sp.2 ++ [UInt8.ofNat c]))) &&
   paths.all (fun sp =>
     let got := entries T (fuelOf T) (T.m.getD sp.1 0).toNat
     let want := (atoms.filter fun sa => sa.2.bytes.isSuffixOf sp.2).map fun sa => (sa.1, sa.2.bytes.length + sa.2.backtrack)
     subsetB got want && subsetB want got) &&
-  atoms.all (fun sa => P.contains sa.2.bytes)
+  atoms.all (fun sa => SP.contains sa.2.bytes)
 
 /-- breadth-first reconstruction of the slot ↦ path map from the transition table (untrusted helper) -/
 def bfsPaths (T : Tables) : List (Nat × Bytes) :=
